@@ -21,7 +21,7 @@ def check(run):
         F = run.facts(cfg)
         # helpers this property stands on (rule sets owned by other properties, see common.deps)
         from common import deps as _deps
-        _deps(run, F, 'isnone', 'agg_gates', 'accessors')
+        _deps(run, F, 'isnone', 'agg_gates', 'accessors', 'wrappers', 'fast_paths')
         ks = find_kernels(F)
         if cfg == 'full':
             run.floor('GATE', 'rolling entry points (config full)', len(ks), 38)
